@@ -1,6 +1,6 @@
 #include "vh.h"
 /* tables not yet implemented are empty */
-const VhOp vh_bits_ops[] = {{NULL, NULL}};
+
 const VhOp vh_bitmap_ops[] = {{NULL, NULL}};
 const VhOp vh_float_ops[] = {{NULL, NULL}};
 const VhOp vh_adaptive_ops[] = {{NULL, NULL}};
